@@ -74,6 +74,13 @@ def model (name : String) (ts : Toks) : String :=
       let r := Model.intersectWind fr.toNat e1 e2
       s!"{r.1.windCount} {r.1.windCount2} {r.2.windCount} {r.2.windCount2}"
     | _ => "parse-error"
+  | "windd", ct :: fr :: h1 :: h2 :: f1 :: sm :: rest =>
+    match takeEdges rest with
+    | some [e1, e2] =>
+      let r := Model.intersectDecide ct.toNat fr.toNat e1 e2 (h1 != 0) (h2 != 0) (f1 != 0) (sm != 0)
+      let newRecs := if r.2.2.1 == Model.IxAction.localMaxMin || r.2.2.1 == Model.IxAction.localMin then 1 else 0
+      s!"{r.1.windCount} {r.1.windCount2} {r.2.1.windCount} {r.2.1.windCount2} {b r.2.2.2.1} {b r.2.2.2.2} {newRecs}"
+    | _ => "parse-error"
   | _, _ => "parse-error model"
 
 def i64 (i : Int) : Int64 := Int64.ofInt i
